@@ -24,6 +24,8 @@ typedef unsigned long U_t;
 typedef unsigned __CPROVER_bitvector[U_BITS] U_t;
 #endif
 
+#define CM_CAP_ASSERT(c) __CPROVER_assert((c), "cmodel capacity")
+
 /* exception state (DESIGN §3.1): 0 = none */
 extern int __exc;
 enum { EXC_NONE = 0, EXC_UNKNOWN = 1, EXC_out_of_range = 2, EXC_invalid_argument = 3, EXC_unsolvable_exception = 4,
@@ -44,10 +46,70 @@ static inline I_t cm_lcm(I_t m, I_t n)
   return (I_t)((I_t)(a / cm_gcd(a, b)) * b);
 }
 
+/* ---------------------------------------------------------------- std::string as a bounded token sequence (DESIGN §4 "String keys")
+ * a string literal is one token (a constant chosen by the emitter: hash of its text); std::to_string(n) is one token
+ * (CM_TOK_NUM | n).  Assumption (listed in the evidence): the strings the code builds from these pieces are uniquely
+ * decodable, so equality / order of token sequences coincides with equality of the real strings. */
+#ifndef CM_STR_CAP
+#define CM_STR_CAP 12
+#endif
+typedef unsigned int cm_tok;
+#define CM_TOK_NUM 0x40000000u
+struct cm_string { U_t n; cm_tok t[CM_STR_CAP]; };
+static inline struct cm_string cm_str_new(void) { struct cm_string s; s.n = 0; return s; }
+static inline struct cm_string cm_str_lit(cm_tok tok) { struct cm_string s; s.n = 1; s.t[0] = tok; return s; }
+static inline struct cm_string cm_str_num(unsigned long v) { struct cm_string s; __CPROVER_assert(v < CM_TOK_NUM, "cmodel: number token range"); s.n = 1; s.t[0] = CM_TOK_NUM | (cm_tok)v; return s; }
+static inline struct cm_string cm_str_cat(struct cm_string a, struct cm_string b)
+{
+  CM_CAP_ASSERT(a.n + b.n <= CM_STR_CAP);
+  for (U_t i = 0; i < CM_STR_CAP; i++) if (i >= a.n && i < a.n + b.n) a.t[i] = b.t[i - a.n];
+  a.n = a.n + b.n;
+  return a;
+}
+static inline struct cm_string *cm_str_append(struct cm_string *a, struct cm_string b) { *a = cm_str_cat(*a, b); return a; }
+static inline _Bool cm_str_eq(struct cm_string a, struct cm_string b)
+{
+  if (a.n != b.n) return 0;
+  for (U_t i = 0; i < CM_STR_CAP; i++) if (i < a.n && a.t[i] != b.t[i]) return 0;
+  return 1;
+}
+static inline _Bool cm_str_lt(struct cm_string a, struct cm_string b)
+{
+  for (U_t i = 0; i < CM_STR_CAP; i++)
+    if (i < a.n && i < b.n) { if (a.t[i] < b.t[i]) return 1; if (a.t[i] > b.t[i]) return 0; }
+  return a.n < b.n;
+}
+static inline _Bool cm_str_empty(struct cm_string *a) { return a->n == 0; }
+#define CM_LT_STR(a, b) cm_str_lt((a), (b))
+#define CM_EQ_STR(a, b) cm_str_eq((a), (b))
+
+/* libm on the small integer-valued arguments the code uses (product encoding of at-most-one): sqrt is exact on perfect
+ * squares and strictly between the neighbouring integers otherwise; ceil on |x| < 2^31 */
+static inline double cm_sqrt(double x)
+{
+#ifdef CM_SQRT_UNREACHABLE
+  /* this job claims (and hereby proves) that no path reaches sqrt; the floating-point code behind it is cut */
+  __CPROVER_assert(0, "sqrt is unreachable in this job");
+  __CPROVER_assume(0);
+#endif
+  long n = (long)x;
+  __CPROVER_assert(x >= 0 && x <= 64 && (double)n == x, "cmodel: sqrt only modelled for integers 0..64");
+  long r = 0;
+  while ((r + 1) * (r + 1) <= n) r++;
+  return r * r == n ? (double)r : (double)r + 0.5;
+}
+static inline double cm_ceil(double x)
+{
+  __CPROVER_assert(x > -1000000.0 && x < 1000000.0, "cmodel: ceil range");
+  long t = (long)x;                       /* truncation toward zero */
+  return ((double)t < x) ? (double)(t + 1) : (double)t;
+}
+
 #define CM_LT_SCALAR(a, b) ((a) < (b))
 #define CM_EQ_SCALAR(a, b) ((a) == (b))
 
-#define CM_CAP_ASSERT(c) __CPROVER_assert((c), "cmodel capacity")
+/* All loops over container contents run to the constant capacity with an `i < n` guard, so symbolic execution stops at
+ * the capacity on its own instead of at the --unwind limit. */
 
 /* ---------------------------------------------------------------- std::vector<T> */
 #define CM_VECTOR(NAME, T, CAP)                                                                            \
@@ -63,18 +125,20 @@ static inline I_t cm_lcm(I_t m, I_t n)
   static inline T *NAME##_back(struct NAME *v) { __CPROVER_assert(v->n > 0, "vector::back on empty vector"); return &v->e[v->n - 1]; } \
   static inline T *NAME##_front(struct NAME *v) { __CPROVER_assert(v->n > 0, "vector::front on empty vector"); return &v->e[0]; } \
   static inline T *NAME##_idx(struct NAME *v, U_t i) { __CPROVER_assert(i < v->n, "vector index in range"); return &v->e[i]; } \
-  static inline struct NAME NAME##_new_n(U_t n, T x) { struct NAME v; CM_CAP_ASSERT(n <= CAP); v.n = n; for (U_t i = 0; i < n; i++) v.e[i] = x; return v; } \
-  static inline void NAME##_resize(struct NAME *v, U_t n, T x) { CM_CAP_ASSERT(n <= CAP); for (U_t i = v->n; i < n; i++) v->e[i] = x; v->n = n; } \
-  static inline void NAME##_assign_n(struct NAME *v, U_t n, T x) { CM_CAP_ASSERT(n <= CAP); for (U_t i = 0; i < n; i++) v->e[i] = x; v->n = n; } \
-  static inline struct NAME NAME##_from_range(T *b, T *e) { struct NAME v; v.n = 0; for (T *p = b; p != e; p++) { CM_CAP_ASSERT(v.n < CAP); v.e[v.n] = *p; v.n = v.n + 1; } return v; } \
+  static inline struct NAME NAME##_new_n(U_t n, T x) { struct NAME v; CM_CAP_ASSERT(n <= CAP); v.n = n; for (U_t i = 0; i < CAP; i++) if (i < n) v.e[i] = x; return v; } \
+  static inline void NAME##_resize(struct NAME *v, U_t n, T x) { CM_CAP_ASSERT(n <= CAP); for (U_t i = 0; i < CAP; i++) if (i >= v->n && i < n) v->e[i] = x; v->n = n; } \
+  static inline void NAME##_assign_n(struct NAME *v, U_t n, T x) { CM_CAP_ASSERT(n <= CAP); for (U_t i = 0; i < CAP; i++) if (i < n) v->e[i] = x; v->n = n; } \
+  static inline struct NAME NAME##_from_range(T *b, T *e) { struct NAME v; __CPROVER_assert(b <= e, "vector(first,last): valid range"); U_t k = (U_t)(e - b); CM_CAP_ASSERT(k <= CAP); v.n = k; \
+    for (U_t i = 0; i < CAP; i++) if (i < k) v.e[i] = b[i]; return v; }                                    \
   static inline T *NAME##_erase(struct NAME *v, T *it) { __CPROVER_assert(it >= &v->e[0] && it < &v->e[0] + v->n, "vector::erase iterator valid"); \
-    for (T *p = it; p + 1 != &v->e[0] + v->n; p++) *p = *(p + 1); v->n = v->n - 1; return it; }            \
+    U_t p = (U_t)(it - &v->e[0]); for (U_t i = 0; i + 1 < CAP; i++) if (i >= p && i + 1 < v->n) v->e[i] = v->e[i + 1]; v->n = v->n - 1; return it; } \
   static inline T *NAME##_erase_range(struct NAME *v, T *b, T *e) { __CPROVER_assert(b >= &v->e[0] && b <= e && e <= &v->e[0] + v->n, "vector::erase range valid"); \
-    U_t k = (U_t)(e - b); if (k != 0) { for (T *p = b; p + k != &v->e[0] + v->n; p++) *p = *(p + k); v->n = v->n - k; } return b; } \
+    U_t p = (U_t)(b - &v->e[0]); U_t k = (U_t)(e - b); for (U_t i = 0; i < CAP; i++) if (i >= p && i + k < v->n) v->e[i] = v->e[i + k]; v->n = v->n - k; return b; } \
   static inline T *NAME##_insert(struct NAME *v, T *it, T x) { CM_CAP_ASSERT(v->n < CAP); __CPROVER_assert(it >= &v->e[0] && it <= &v->e[0] + v->n, "vector::insert iterator valid"); \
-    for (T *p = &v->e[0] + v->n; p != it; p--) *p = *(p - 1); *it = x; v->n = v->n + 1; return it; }      \
+    U_t p = (U_t)(it - &v->e[0]); for (U_t i = CAP - 1; i > 0; i--) if (i > p && i <= v->n) v->e[i] = v->e[i - 1]; v->e[p] = x; v->n = v->n + 1; return it; } \
   static inline void NAME##_insert_range(struct NAME *v, T *it, T *b, T *e) { __CPROVER_assert(it == &v->e[0] + v->n, "cmodel: vector::insert(range) only modelled at end()"); \
-    for (T *p = b; p != e; p++) { CM_CAP_ASSERT(v->n < CAP); v->e[v->n] = *p; v->n = v->n + 1; } }         \
+    __CPROVER_assert(b <= e, "vector::insert(range): valid range"); U_t k = (U_t)(e - b); CM_CAP_ASSERT(v->n + k <= CAP); \
+    for (U_t i = 0; i < CAP; i++) if (i < k) v->e[v->n + i] = b[i]; v->n = v->n + k; }                       \
   static inline void NAME##_swap(struct NAME *v, struct NAME *w) { struct NAME t = *v; *v = *w; *w = t; }
 
 /* ---------------------------------------------------------------- std::map<K,V> as a sorted array of pairs */
@@ -86,22 +150,35 @@ static inline I_t cm_lcm(I_t m, I_t n)
   static inline void NAME##_clear(struct NAME *m) { m->n = 0; }                                            \
   static inline struct PAIR *NAME##_begin(struct NAME *m) { return &m->e[0]; }                             \
   static inline struct PAIR *NAME##_end(struct NAME *m) { return &m->e[0] + m->n; }                        \
-  static inline struct PAIR *NAME##_lower_bound(struct NAME *m, K k) { U_t i = 0; while (i < m->n && LT(m->e[i].first, k)) i++; return &m->e[0] + i; } \
-  static inline struct PAIR *NAME##_upper_bound(struct NAME *m, K k) { U_t i = 0; while (i < m->n && !LT(k, m->e[i].first)) i++; return &m->e[0] + i; } \
-  static inline struct PAIR *NAME##_find(struct NAME *m, K k) { U_t i = 0; while (i < m->n && !EQ(m->e[i].first, k)) i++; return &m->e[0] + i; } \
-  static inline U_t NAME##_count(struct NAME *m, K k) { return NAME##_find(m, k) != NAME##_end(m) ? 1 : 0; } \
-  static inline struct PAIR *NAME##_ins_at(struct NAME *m, struct PAIR *pos, K k, V v) { CM_CAP_ASSERT(m->n < CAP); \
-    for (struct PAIR *p = &m->e[0] + m->n; p != pos; p--) *p = *(p - 1); pos->first = k; pos->second = v; m->n = m->n + 1; return pos; } \
-  static inline struct PAIR *NAME##_emplace(struct NAME *m, K k, V v) { struct PAIR *pos = NAME##_lower_bound(m, k); \
-    if (pos != NAME##_end(m) && EQ(pos->first, k)) return pos; return NAME##_ins_at(m, pos, k, v); }       \
-  static inline struct PAIR *NAME##_insert_or_assign(struct NAME *m, K k, V v) { struct PAIR *pos = NAME##_lower_bound(m, k); \
-    if (pos != NAME##_end(m) && EQ(pos->first, k)) { pos->second = v; return pos; } return NAME##_ins_at(m, pos, k, v); } \
+  static inline U_t NAME##_lb(struct NAME *m, K k) { U_t r = 0; for (U_t i = 0; i < CAP; i++) if (i < m->n && LT(m->e[i].first, k)) r = i + 1; return r; } \
+  static inline U_t NAME##_pos(struct NAME *m, K k) { U_t r = m->n; for (U_t i = CAP; i > 0; i--) if (i - 1 < m->n && EQ(m->e[i - 1].first, k)) r = i - 1; return r; } \
+  static inline struct PAIR *NAME##_lower_bound(struct NAME *m, K k) { return &m->e[0] + NAME##_lb(m, k); } \
+  static inline struct PAIR *NAME##_upper_bound(struct NAME *m, K k) { U_t r = 0; for (U_t i = 0; i < CAP; i++) if (i < m->n && !LT(k, m->e[i].first)) r = i + 1; return &m->e[0] + r; } \
+  static inline struct PAIR *NAME##_find(struct NAME *m, K k) { return &m->e[0] + NAME##_pos(m, k); }       \
+  static inline U_t NAME##_count(struct NAME *m, K k) { return NAME##_pos(m, k) != m->n ? 1 : 0; }          \
+  static inline struct PAIR *NAME##_ins_at(struct NAME *m, U_t p, K k, V v) { CM_CAP_ASSERT(m->n < CAP);    \
+    for (U_t i = CAP - 1; i > 0; i--) if (i > p && i <= m->n) m->e[i] = m->e[i - 1]; m->e[p].first = k; m->e[p].second = v; m->n = m->n + 1; return &m->e[p]; } \
+  static inline struct PAIR *NAME##_emplace(struct NAME *m, K k, V v) { U_t q = NAME##_pos(m, k); if (q != m->n) return &m->e[q]; return NAME##_ins_at(m, NAME##_lb(m, k), k, v); } \
+  static inline struct PAIR *NAME##_insert_or_assign(struct NAME *m, K k, V v) { U_t q = NAME##_pos(m, k); if (q != m->n) { m->e[q].second = v; return &m->e[q]; } return NAME##_ins_at(m, NAME##_lb(m, k), k, v); } \
   static inline V *NAME##_idx(struct NAME *m, K k, V dflt) { return &NAME##_emplace(m, k, dflt)->second; }  \
   static V NAME##_at_dummy;                                                                                \
-  static inline V *NAME##_at(struct NAME *m, K k) { struct PAIR *p = NAME##_find(m, k); if (p == NAME##_end(m)) { __exc = EXC_out_of_range; return &NAME##_at_dummy; } return &p->second; } \
+  static inline V *NAME##_at(struct NAME *m, K k) { U_t q = NAME##_pos(m, k); if (q == m->n) { __exc = EXC_out_of_range; return &NAME##_at_dummy; } return &m->e[q].second; } \
   static inline struct PAIR *NAME##_erase_it(struct NAME *m, struct PAIR *it) { __CPROVER_assert(it >= &m->e[0] && it < &m->e[0] + m->n, "map::erase iterator valid"); \
-    for (struct PAIR *p = it; p + 1 != &m->e[0] + m->n; p++) *p = *(p + 1); m->n = m->n - 1; return it; }   \
-  static inline U_t NAME##_erase_key(struct NAME *m, K k) { struct PAIR *p = NAME##_find(m, k); if (p == NAME##_end(m)) return 0; NAME##_erase_it(m, p); return 1; }
+    U_t p = (U_t)(it - &m->e[0]); for (U_t i = 0; i + 1 < CAP; i++) if (i >= p && i + 1 < m->n) m->e[i] = m->e[i + 1]; m->n = m->n - 1; return it; } \
+  static inline U_t NAME##_erase_key(struct NAME *m, K k) { U_t q = NAME##_pos(m, k); if (q == m->n) return 0; NAME##_erase_it(m, &m->e[q]); return 1; }
+
+/* std::sort with a strict-weak-order comparator: stable insertion sort (one of the orders std::sort may produce) */
+#define CM_SORT(NAME, T, LESS)                                                                             \
+  static inline void NAME(T *b, T *e)                                                                      \
+  {                                                                                                        \
+    if (b == e) return;                                                                                    \
+    for (T *i = b + 1; i != e; i++)                                                                        \
+    {                                                                                                      \
+      T x = *i; T *j = i;                                                                                  \
+      while (j != b && LESS(&x, j - 1)) { *j = *(j - 1); j--; }                                            \
+      *j = x;                                                                                              \
+    }                                                                                                      \
+  }
 
 /* std::unordered_map: same observable API; iteration order (unspecified in C++) is the key order here */
 #define CM_UMAP(NAME, PAIR, K, V, CAP, LT, EQ) CM_MAP(NAME, PAIR, K, V, CAP, LT, EQ)
@@ -115,14 +192,15 @@ static inline I_t cm_lcm(I_t m, I_t n)
   static inline void NAME##_clear(struct NAME *s) { s->n = 0; }                                            \
   static inline K *NAME##_begin(struct NAME *s) { return &s->e[0]; }                                       \
   static inline K *NAME##_end(struct NAME *s) { return &s->e[0] + s->n; }                                  \
-  static inline K *NAME##_find(struct NAME *s, K k) { U_t i = 0; while (i < s->n && !EQ(s->e[i], k)) i++; return &s->e[0] + i; } \
-  static inline U_t NAME##_count(struct NAME *s, K k) { return NAME##_find(s, k) != NAME##_end(s) ? 1 : 0; } \
-  static inline void NAME##_insert(struct NAME *s, K k) { U_t i = 0; while (i < s->n && LT(s->e[i], k)) i++; \
-    if (i < s->n && EQ(s->e[i], k)) return; CM_CAP_ASSERT(s->n < CAP); for (U_t j = s->n; j > i; j--) s->e[j] = s->e[j - 1]; s->e[i] = k; s->n = s->n + 1; } \
-  static inline void NAME##_insert_range(struct NAME *s, K *b, K *e) { for (K *p = b; p != e; p++) NAME##_insert(s, *p); } \
+  static inline U_t NAME##_pos(struct NAME *s, K k) { U_t r = s->n; for (U_t i = CAP; i > 0; i--) if (i - 1 < s->n && EQ(s->e[i - 1], k)) r = i - 1; return r; } \
+  static inline K *NAME##_find(struct NAME *s, K k) { return &s->e[0] + NAME##_pos(s, k); }                 \
+  static inline U_t NAME##_count(struct NAME *s, K k) { return NAME##_pos(s, k) != s->n ? 1 : 0; }          \
+  static inline void NAME##_insert(struct NAME *s, K k) { if (NAME##_pos(s, k) != s->n) return; U_t p = 0; for (U_t i = 0; i < CAP; i++) if (i < s->n && LT(s->e[i], k)) p = i + 1; \
+    CM_CAP_ASSERT(s->n < CAP); for (U_t j = CAP - 1; j > 0; j--) if (j > p && j <= s->n) s->e[j] = s->e[j - 1]; s->e[p] = k; s->n = s->n + 1; } \
+  static inline void NAME##_insert_range(struct NAME *s, K *b, K *e) { __CPROVER_assert(b <= e, "set::insert(range): valid range"); U_t k = (U_t)(e - b); for (U_t i = 0; i < CAP; i++) if (i < k) NAME##_insert(s, b[i]); CM_CAP_ASSERT(k <= CAP); } \
   static inline struct NAME NAME##_from_range(K *b, K *e) { struct NAME s; s.n = 0; NAME##_insert_range(&s, b, e); return s; } \
   static inline K *NAME##_erase_it(struct NAME *s, K *it) { __CPROVER_assert(it >= &s->e[0] && it < &s->e[0] + s->n, "set::erase iterator valid"); \
-    for (K *p = it; p + 1 != &s->e[0] + s->n; p++) *p = *(p + 1); s->n = s->n - 1; return it; }             \
-  static inline U_t NAME##_erase_key(struct NAME *s, K k) { K *p = NAME##_find(s, k); if (p == NAME##_end(s)) return 0; NAME##_erase_it(s, p); return 1; }
+    U_t p = (U_t)(it - &s->e[0]); for (U_t i = 0; i + 1 < CAP; i++) if (i >= p && i + 1 < s->n) s->e[i] = s->e[i + 1]; s->n = s->n - 1; return it; } \
+  static inline U_t NAME##_erase_key(struct NAME *s, K k) { U_t q = NAME##_pos(s, k); if (q == s->n) return 0; NAME##_erase_it(s, &s->e[q]); return 1; }
 
 #endif
